@@ -2,24 +2,24 @@
 // if no read-only operation ever WRITES (store, memcpy/memset destination, atomic RMW, free) an object that existed before it
 // started (the mesh object, its heap buffers), no conflicting access pair exists for any number of threads and any interleaving,
 // and each thread computes a function of the unchanging shared state.  ll2c --store-hook instruments every such write in every
-// function; rt/rt_c20.c asserts the written object is not shared.  shard params: 0 base, 1 group of const queries, 2 pending deletion (0/1).
+// function; rt/rt_c20.c asserts the written object is not shared.  shard params: 0 base, 1 group of const queries, 2 pending deletion (0/1), 4 slice (groups 1-4 only visit centres with index % 4 == slice).
 #include "ops.h"
 extern "C" { void v_register_shared(const void *p, unsigned long n); void v_epoch_mark(); void v_epoch_end(); }
 
-static volatile int g_sink;
+static volatile int vh_sink;
 template <class It> static inline void walk(It it, int limit) {
   int n = 0;
-  for (; it.valid() && n < limit; ++it, ++n) g_sink = g_sink + (*it).idx();
-  It back = it; if (n > 0) { --back; g_sink = g_sink + (*back).idx(); }
+  for (; it.valid() && n < limit; ++it, ++n) vh_sink = vh_sink + (*it).idx();
+  It back = it; if (n > 0) { --back; vh_sink = vh_sink + (*back).idx(); }
 }
 template <class Range> static inline void walk_range(Range r, int limit) {
   int n = 0;
-  for (auto it = r.first; it != r.second && n < limit; ++it, ++n) g_sink = g_sink + (*it).idx();
+  for (auto it = r.first; it != r.second && n < limit; ++it, ++n) vh_sink = vh_sink + (*it).idx();
 }
 static void do_case(unsigned) {}
 
 extern "C" void harness_c20() {
-  unsigned base = v_param(0), group = v_param(1), pending = v_param(2);
+  unsigned base = v_param(0), group = v_param(1), pending = v_param(2), slice = v_param(4);
   TopologyKernel mesh;
   set_mode(mesh, 1);
   build_base(mesh, base);
@@ -51,7 +51,7 @@ extern "C" void harness_c20() {
     v_witness("C20 group 0");
   } else if (group == 1) {   // definitions by value, lookups (enumerated arguments: they allocate and loop)
     for (int hfh = 0; hfh < 2 * nF; ++hfh) {
-      if (m.is_deleted(HFH(hfh))) continue;
+      if ((unsigned)hfh % 4 != slice || m.is_deleted(HFH(hfh))) continue;
       OpenVolumeMeshFace hf = m.halfface(HFH(hfh)); OpenVolumeMeshFace of = m.opposite_halfface(HFH(hfh));
       s += (int)hf.halfedges().size() + (int)of.halfedges().size();
       std::vector<VH> vs = m.get_halfface_vertices(HFH(hfh));
@@ -64,14 +64,14 @@ extern "C" void harness_c20() {
       if (nC > 0) s += m.find_halfface_in_cell(vs, CH(0)).idx() + m.find_halfedge_in_cell(vs[0], vs[1], CH(0)).idx();
       s += m.is_incident(FH(hfh >> 1), EH(h0.idx() >> 1));
     }
-    for (int a = 0; a < nV; ++a) for (int b = 0; b < nV; ++b) if (!m.is_deleted(VH(a)) && !m.is_deleted(VH(b))) s += m.find_halfedge(VH(a), VH(b)).idx();
-    for (int he = 0; he < 2 * nE; ++he) if (!m.is_deleted(HEH(he))) s += m.is_boundary(HEH(he)) + m.is_boundary(EH(he >> 1));
+    for (int a = 0; a < nV; ++a) for (int b = 0; b < nV; ++b) if ((unsigned)a % 4 == slice && !m.is_deleted(VH(a)) && !m.is_deleted(VH(b))) s += m.find_halfedge(VH(a), VH(b)).idx();
+    for (int he = 0; he < 2 * nE; ++he) if ((unsigned)he % 4 == slice && !m.is_deleted(HEH(he))) s += m.is_boundary(HEH(he)) + m.is_boundary(EH(he >> 1));
     for (int v = 0; v < nV; ++v) if (!m.is_deleted(VH(v))) s += m.is_boundary(VH(v));
     for (int c = 0; c < nC; ++c) s += (int)m.n_vertices_in_cell(CH(c));
     v_witness("C20 group 1");
   } else if (group == 2) {   // vertex-centred circulators
     for (int v = 0; v < nV; ++v) {
-      if (m.is_deleted(VH(v))) continue;
+      if ((unsigned)v % 4 != slice || m.is_deleted(VH(v))) continue;
       walk(m.vv_iter(VH(v)), 16); walk(m.voh_iter(VH(v)), 16); walk(m.vih_iter(VH(v)), 16); walk(m.ve_iter(VH(v)), 16);
       walk(m.vf_iter(VH(v)), 16); walk(m.vhf_iter(VH(v)), 32); walk(m.vc_iter(VH(v)), 16);
       walk_range(m.vertex_vertices(VH(v)), 16); walk_range(m.outgoing_halfedges(VH(v), 2), 32);
@@ -79,19 +79,19 @@ extern "C" void harness_c20() {
     v_witness("C20 group 2");
   } else if (group == 3) {   // halfedge/edge-centred circulators
     for (int he = 0; he < 2 * nE; ++he) {
-      if (m.is_deleted(HEH(he))) continue;
+      if ((unsigned)(he >> 1) % 4 != slice || m.is_deleted(HEH(he))) continue;
       walk(m.hehf_iter(HEH(he)), 16); walk(m.hef_iter(HEH(he)), 16); walk(m.hec_iter(HEH(he)), 16);
       if ((he & 1) == 0) { walk(m.ehf_iter(EH(he >> 1)), 32); walk(m.ef_iter(EH(he >> 1)), 16); walk(m.ec_iter(EH(he >> 1)), 16); walk_range(m.edge_cells(EH(he >> 1)), 16); }
     }
     v_witness("C20 group 3");
   } else if (group == 4) {   // face/halfface/cell-centred circulators
     for (int hfh = 0; hfh < 2 * nF; ++hfh) {
-      if (m.is_deleted(HFH(hfh))) continue;
+      if ((unsigned)(hfh >> 1) % 4 != slice || m.is_deleted(HFH(hfh))) continue;
       walk(m.hfhe_iter(HFH(hfh)), 16); walk(m.hfe_iter(HFH(hfh)), 16); walk(m.hfv_iter(HFH(hfh)), 16); walk(m.bhfhf_iter(HFH(hfh)), 16);
       if ((hfh & 1) == 0) { walk(m.fv_iter(FH(hfh >> 1)), 16); walk(m.fhe_iter(FH(hfh >> 1)), 16); walk(m.fe_iter(FH(hfh >> 1)), 16); }
     }
     for (int c = 0; c < nC; ++c) {
-      if (m.is_deleted(CH(c))) continue;
+      if ((unsigned)c % 4 != slice || m.is_deleted(CH(c))) continue;
       walk(m.cv_iter(CH(c)), 16); walk(m.che_iter(CH(c)), 32); walk(m.ce_iter(CH(c)), 16); walk(m.chf_iter(CH(c)), 16); walk(m.cf_iter(CH(c)), 16); walk(m.cc_iter(CH(c)), 16);
     }
     v_witness("C20 group 4");
@@ -101,6 +101,6 @@ extern "C" void harness_c20() {
     walk_range(m.vertices(), 32); walk_range(m.edges(), 32); walk_range(m.halfedges(), 64); walk_range(m.faces(), 32); walk_range(m.halffaces(), 64); walk_range(m.cells(), 8);
     v_witness("C20 group 5");
   }
-  g_sink = g_sink + s;
+  vh_sink = vh_sink + s;
   v_epoch_end();
 }
